@@ -1,26 +1,63 @@
-//! C10: not implemented yet.
+//! C10: the trivial-encoding fast path is sound.
+//!
+//! Same generator and evaluator as C09 (crate::c09::abi), biased to the padding cases. Per type
+//! the generated script logs `is_encode_trivial::<T>()`, `is_decode_trivial::<T>()`,
+//! `__size_of::<T>()`, the raw memory image of a value and `encode(v)`:
+//!   * classified trivially encodable (resp. decodable) => memory image == canonical bytes;
+//!   * independent of the classification `encode(v)` == canonical bytes (both reference codecs).
+//! Decode side: canonical encodings with ONE bool byte or enum discriminant replaced by an
+//! invalid pattern (anywhere in the tree) must make the run revert on every decode route
+//! (`abi_decode::<T>`, script data through a carrier enum, script data of `main(T..)`); for types
+//! where every bit pattern is a value, random byte strings must decode and re-encode to
+//! themselves (this covers all types classified trivially decodable).
+use crate::c09::abi::*;
 use crate::common::*;
 use crate::{Plan, Prop};
+use serde_json::Value;
 
 pub static META: PropertyMeta = PropertyMeta {
     id: "C10",
     level: "exploration",
-    rule: "not implemented",
-    assumptions: &[],
-    floor_evaluations: 1,
-    floor_nontrivial: 2,
-    required_counters: &[],
+    rule: "one evaluation = one VM execution of a generated script in one profile that was checked: an info run (classification, size, memory image, encode(v) against the canonical bytes), a decode of a canonical encoding, a decode of an encoding with one invalid bool byte / enum discriminant (must revert), or a decode of a random image of an all-patterns-valid type; non-trivial = the type tree has depth >= 2; distinct = hash of (type tree, value or corrupted bytes)",
+    assumptions: &[
+        "fuel-vm 0.66 is the trusted execution substrate; a Panic receipt and a Revert receipt both count as reverted",
+        "invalid patterns are only demanded to revert for bool bytes outside {0,1} and enum discriminants >= number of variants; str bytes, lengths and truncated buffers are not corrupted",
+        "below std::codec::TrivialEnum the validation of discriminants is deferred to `unwrap` by design, so no corruption is applied there; TrivialBool accepts any u64 by design",
+    ],
+    floor_evaluations: 2000,
+    floor_nontrivial: 100,
+    required_counters: &[
+        "types_encode_trivial",
+        "types_encode_nontrivial",
+        "types_decode_trivial",
+        "types_decode_nontrivial",
+        "aggregate_types_encode_trivial",
+        "aggregate_types_decode_trivial",
+        "memory_image_equals_canonical",
+        "invalid_bool_tried",
+        "invalid_tag_tried",
+        "invalid_patterns_reverted",
+        "random_images_decoded_trivially",
+        "entry_decode_trivial_path",
+        "entry_encode_trivial_path",
+        "pad_u8_next_to_word",
+        "pad_bool_next_to_word",
+        "pad_unit_only_enum",
+        "pad_zero_sized_variant_among_payloads",
+        "pad_array_of_small_scalars",
+        "pad_strn_unaligned_in_aggregate",
+    ],
 };
 
 pub static PROP: Prop = Prop {
     meta: &META,
-    plan: |_t| Plan { nshards: 1, budget_s: 1.0, mem_gib: 0 },
-    shard: |_ctx| {
-        let mut r = ShardResult::default();
-        r.harness_fault = Some("not implemented".into());
-        r
-    },
-    replay: crate::no_replay,
+    plan: |t| Plan { nshards: 16, budget_s: t.pick(60.0, 960.0), mem_gib: 6 },
+    shard: |ctx| crate::c09::shard_loop(ctx, true),
+    replay,
     extra: crate::no_extra,
     subcommand: crate::no_subcommand,
 };
+
+fn replay(case: &Value) -> ShardResult {
+    crate::c09::replay_spec(case, "C10")
+}
